@@ -50,6 +50,7 @@ BlockChecksFailed(s, b) == \E g \in CheckGroups : HasGroup(s, b, g) /\ s.grpFail
 PlanGroupFailed(s, g) == HasGroup(s, 0, g) /\ s.grpFail[Grp(0, g)]
 Live(s) == ~s.crashed          \* first process lifetime of the plan (C01..C07 are stated for it)
 Running(s) == Live(s) /\ s.waited = <<>> /\ ~s.frozen
+Resumed(s) == s.crashed /\ s.wasRunning /\ s.rec /\ ~s.old   \* a plan the new process must resume
 
 Letter(out) == CASE out = "ok" -> "o" [] out = "tr" -> "t" [] out = "perm" -> "p"
                  [] out = "wrongtype" -> "w" [] out = "overrun" -> "x" [] OTHER -> "?"
@@ -80,6 +81,7 @@ InitObs(c) ==
     termW |-> {},                      \* objects written terminal in this lifetime
     frozen |-> FALSE, waited |-> <<>>, wreason |-> "-",
     crashed |-> FALSE, cdur |-> <<>>, base |-> "-", wasRunning |-> FALSE,
+    old |-> FALSE, rec |-> TRUE, csnap |-> <<>>, creason |-> "-",
     rterm |-> [o \in N |-> "none"],
     startOk |-> 0, startOpen |-> 0, startAfterOk |-> 0 ]
 
@@ -173,8 +175,8 @@ SnapConsistent(s, snap) ==
     /\ \A o \in DOMAIN sn :
           /\ D(s, o).k = "seq" => SeqConsistent(s, sn, o)
           /\ D(s, o).k \in {"act", "cact"} => ActConsistent(sn[o])
-          /\ TimesConsistent(sn[o])
 C04_Consistent(s, e) == (e.ev = "WaitRet" /\ Live(s)) => SnapConsistent(s, e.snap)
+C04_Times(s, e) == (e.ev = "WaitRet" /\ Live(s)) => \A x \in ToSet(e.snap) : TimesConsistent(x)
 ReasonTruthful(s, st, r) ==
     /\ (st = CO) <=> (r = "FRUnknown")
     /\ r = "FRPreCheck" => PlanGroupFailed(s, "pre")
@@ -248,7 +250,7 @@ C08_AttemptBeforeNext(s, e) == (IsP(e) /\ s.waited = <<>> /\ ~s.frozen) =>
     /\ (D(s, e.obj).k = "act" /\ D(s, e.obj).a > 1) =>
           LET p == ActName(D(s, e.obj).b, D(s, e.obj).s, D(s, e.obj).a - 1) IN s.dur[p].st = CO /\ s.dur[p].last = "ok"
 C08_TerminalBeforeRelease(s, e) ==
-    /\ (e.ev = "WaitRet" /\ (Live(s) \/ s.wasRunning)) =>
+    /\ (e.ev = "WaitRet" /\ (Live(s) \/ Resumed(s))) =>
           /\ Terminal(s.dur["p"].st)
           /\ \A x \in ToSet(e.snap) : s.dur[x.obj].st = x.st /\ s.dur[x.obj].natt = x.natt
     /\ (s.waited # <<>> /\ IsW(e)) => FALSE
@@ -271,20 +273,33 @@ C09_OnlyInFlight(s, e) == (IsP(e) /\ s.crashed /\ D(s, e.obj).k = "act") =>
 
 (* ---------------- C10: recovery converges ---------------- *)
 C10_Terminates(s, e) == (e.ev = "Hang" /\ s.crashed) => FALSE
-C10_Terminal(s, e) == (e.ev = "WaitRet" /\ s.crashed /\ s.wasRunning) => (e.ok /\ Terminal(SnapOf(e.snap)["p"].st))
-C10_NothingRunning(s, e) == (e.ev = "WaitRet" /\ s.crashed /\ s.wasRunning) => \A x \in ToSet(e.snap) : x.st # RU
+C10_Terminal(s, e) == (e.ev = "WaitRet" /\ Resumed(s)) => (e.ok /\ Terminal(SnapOf(e.snap)["p"].st))
+C10_NothingRunning(s, e) == (e.ev = "WaitRet" /\ Resumed(s)) => \A x \in ToSet(e.snap) : x.st # RU
 C10_Quiescent(s, e) ==
     /\ (e.ev = "WaitRet" /\ s.crashed) => (Infl(s) = {} /\ e.infl = 0)
     /\ (s.crashed /\ s.waited # <<>> /\ e.ev \in {"W", "PStart"}) => FALSE
 C10_Stable(s, e) == (e.ev = "Read" /\ s.crashed /\ s.waited # <<>>) => (e.snap = s.waited /\ e.reason = s.wreason)
-C10_Consistent(s, e) == (e.ev = "WaitRet" /\ s.crashed /\ s.wasRunning) => SnapConsistent(s, e.snap)
-C10_DeferredRan(s, e) == (e.ev = "WaitRet" /\ s.crashed /\ s.wasRunning) =>
+C10_Consistent(s, e) == (e.ev = "WaitRet" /\ Resumed(s)) => SnapConsistent(s, e.snap)
+C10_Times(s, e) == (e.ev = "WaitRet" /\ Resumed(s)) => \A x \in ToSet(e.snap) : TimesConsistent(x)
+C10_DeferredRan(s, e) == (e.ev = "WaitRet" /\ Resumed(s)) =>
     LET sn == SnapOf(e.snap)
         byp(sc) == HasGroup(s, sc, "bypass") /\ sn[Grp(sc, "bypass")].st = CO IN
     \A sc \in 0..NB(s) : (HasGroup(s, sc, "deferred") /\ ~byp(0) /\ ~byp(sc) /\ (sc = 0 \/ sn[ScopeName(sc)].st # NS)) =>
         Terminal(sn[Grp(sc, "deferred")].st)
-C10_SameOutcome(s, e) == (e.ev = "WaitRet" /\ s.crashed /\ s.wasRunning /\ s.cfg.fn /\ s.base # "-") =>
+C10_SameOutcome(s, e) == (e.ev = "WaitRet" /\ Resumed(s) /\ s.cfg.fn /\ s.base # "-") =>
     SnapOf(e.snap)["p"].st = s.base
+
+(* ---------------- C11: what is resumed at start-up ---------------- *)
+Untouchable(s) == s.crashed /\ (~s.wasRunning \/ ~s.rec)
+C11_Untouched(s, e) == Untouchable(s) =>
+    /\ e.ev \notin {"W", "PStart"}
+    /\ e.ev \in {"WaitRet", "Read"} => (e.ok /\ e.snap = s.csnap /\ e.reason = s.creason)
+C11_AgedOut(s, e) == (s.crashed /\ s.wasRunning /\ s.rec /\ s.old) =>
+    /\ e.ev # "PStart"
+    /\ e.ev \in {"WaitRet", "Read"} =>
+          /\ e.ok /\ SnapOf(e.snap)["p"].st = FA /\ e.reason = "FRExceedRecovery"
+          /\ \A x \in ToSet(e.snap) : x.st # RU
+C11_Resumed(s, e) == (e.ev = "WaitRet" /\ Resumed(s)) => (e.ok /\ Terminal(SnapOf(e.snap)["p"].st))
 
 (* ---------------- C12: at most one execution ---------------- *)
 C12_AtMostOnce(s, e) ==
@@ -299,15 +314,16 @@ ClauseNames == {
     "C01_BlockOrder", "C01_ActionOrder", "C01_PreGate", "C01_PostAfterSeqs", "C01_DeferredLast",
     "C02_Bound", "C02_OneBlock",
     "C03_Bound", "C03_StopExact", "C03_BlockVerdict", "C03_AfterFailedBlock",
-    "C04_WaitReturns", "C04_Terminal", "C04_NothingRunning", "C04_Quiescent", "C04_Stable", "C04_Consistent", "C04_Reason",
+    "C04_WaitReturns", "C04_Terminal", "C04_NothingRunning", "C04_Quiescent", "C04_Stable", "C04_Consistent", "C04_Times", "C04_Reason",
     "C04_FailedCheckFailsPlan",
     "C05_Bound", "C05_StopOnFinal", "C05_OneAttemptPerCall", "C05_Recorded", "C05_Overrun",
     "C06_BypassSkips", "C06_BypassFailRuns", "C06_PreFailBlocks", "C06_ContInitialFail",
     "C07_ContKeepsRunning", "C07_ContFailureFails", "C07_DeferredOnce", "C07_DeferredFails",
     "C08_RunningBeforeInvoke", "C08_AttemptBeforeNext", "C08_TerminalBeforeRelease", "C08_Monotone",
     "C09_NoRedoAction", "C09_NoRedoFinished", "C09_OnlyInFlight",
-    "C10_Terminates", "C10_Terminal", "C10_NothingRunning", "C10_Quiescent", "C10_Stable", "C10_Consistent",
+    "C10_Terminates", "C10_Terminal", "C10_NothingRunning", "C10_Quiescent", "C10_Stable", "C10_Consistent", "C10_Times",
     "C10_DeferredRan", "C10_SameOutcome",
+    "C11_Untouched", "C11_AgedOut", "C11_Resumed",
     "C12_AtMostOnce", "C12_SecondStartRejected", "C12_StaleRejected", "C12_NoDeath" }
 
 Holds(c, s, e) ==
@@ -320,6 +336,7 @@ Holds(c, s, e) ==
       [] c = "C04_WaitReturns" -> C04_WaitReturns(s, e) [] c = "C04_Terminal" -> C04_Terminal(s, e)
       [] c = "C04_NothingRunning" -> C04_NothingRunning(s, e) [] c = "C04_Quiescent" -> C04_Quiescent(s, e)
       [] c = "C04_Stable" -> C04_Stable(s, e) [] c = "C04_Consistent" -> C04_Consistent(s, e)
+      [] c = "C04_Times" -> C04_Times(s, e)
       [] c = "C04_Reason" -> C04_Reason(s, e) [] c = "C04_FailedCheckFailsPlan" -> C04_FailedCheckFailsPlan(s, e)
       [] c = "C05_Bound" -> C05_Bound(s, e) [] c = "C05_StopOnFinal" -> C05_StopOnFinal(s, e)
       [] c = "C05_OneAttemptPerCall" -> C05_OneAttemptPerCall(s, e) [] c = "C05_Recorded" -> C05_Recorded(s, e)
@@ -335,7 +352,10 @@ Holds(c, s, e) ==
       [] c = "C10_Terminates" -> C10_Terminates(s, e) [] c = "C10_Terminal" -> C10_Terminal(s, e)
       [] c = "C10_NothingRunning" -> C10_NothingRunning(s, e) [] c = "C10_Quiescent" -> C10_Quiescent(s, e)
       [] c = "C10_Stable" -> C10_Stable(s, e) [] c = "C10_Consistent" -> C10_Consistent(s, e)
+      [] c = "C10_Times" -> C10_Times(s, e)
       [] c = "C10_DeferredRan" -> C10_DeferredRan(s, e) [] c = "C10_SameOutcome" -> C10_SameOutcome(s, e)
+      [] c = "C11_Untouched" -> C11_Untouched(s, e) [] c = "C11_AgedOut" -> C11_AgedOut(s, e)
+      [] c = "C11_Resumed" -> C11_Resumed(s, e)
       [] c = "C12_AtMostOnce" -> C12_AtMostOnce(s, e) [] c = "C12_SecondStartRejected" -> C12_SecondStartRejected(s, e)
       [] c = "C12_StaleRejected" -> C12_StaleRejected(s, e)
       [] c = "C12_NoDeath" -> C12_NoDeath(s, e)
@@ -379,7 +399,10 @@ ObsPEnd(s, e) ==
             !.lastOut[e.obj] = IF i = Len(s.outs[e.obj]) THEN e.out ELSE @,
             !.lastTag[e.obj] = IF i = Len(s.outs[e.obj]) THEN e.rtag ELSE @,
             !.outs[e.obj] = IF i \in 1..Len(@) THEN [@ EXCEPT ![i] = Letter(e.out)] ELSE @,
-            !.grpFail = IF d.k = "cact" /\ e.out # "ok" /\ d.g # "bypass" THEN [@ EXCEPT ![GroupOfAct(d)] = TRUE] ELSE @]
+            \* a check action has failed when a call ends with a permanent failure or with the last allowed attempt failing
+            !.grpFail = IF d.k = "cact" /\ d.g # "bypass" /\ i = Len(s.outs[e.obj]) /\ e.out # "ok"
+                           /\ (e.out \in {"perm", "wrongtype"} \/ i >= Retries(s, d) + 1)
+                        THEN [@ EXCEPT ![GroupOfAct(d)] = TRUE] ELSE @]
 
 ObsCrash(s, e) ==
   LET sn == SnapOf(e.snap) IN
@@ -387,6 +410,7 @@ ObsCrash(s, e) ==
             !.cdur = [o \in DOMAIN sn |-> [st |-> sn[o].st, natt |-> sn[o].natt, last |-> sn[o].last]],
             !.dur = [o \in DOMAIN sn |-> [st |-> sn[o].st, natt |-> sn[o].natt, last |-> sn[o].last]],
             !.base = e.base,
+            !.old = e.old, !.rec = e.recovery, !.csnap = e.snap, !.creason = e.reason,
             !.wasRunning = (sn["p"].st = RU)]
 
 Observe(s, e) ==
